@@ -297,7 +297,10 @@ func Start(o Options) (*Pair, error) {
 		if lastErr == nil {
 			break
 		}
-		p.Server.Shutdown()
+		func() {
+			defer func() { recover() }() // HttpServer.Shutdown dereferences a nil server when Startup failed early
+			p.Server.Shutdown()
+		}()
 		if !isBindErr(lastErr) {
 			break
 		}
